@@ -4,7 +4,7 @@ d=$1; p=$2; t=${3:-quick}; shift 3
 cd /verif
 git -C /repo diff --quiet || { echo "/repo has uncommitted changes"; exit 2; }
 git -C /repo apply $PWD/$d/patch.diff || exit 2
-./check $p --tier $t "$@" > /tmp/seedrun_$(basename $d)_$p.log 2>&1; rc=$?
+VERIF_EVIDENCE_DIR=/verif/build/evidence_seeded ./check $p --tier $t "$@" > /tmp/seedrun_$(basename $d)_$p.log 2>&1; rc=$?
 git -C /repo checkout -- .
 echo "$(basename $d) vs $p/$t: exit=$rc  $(grep -c '^VIOLATION' /tmp/seedrun_$(basename $d)_$p.log) violation lines, $(grep -c 'UNCONFIRMED' /tmp/seedrun_$(basename $d)_$p.log) unconfirmed"
 exit $rc
